@@ -6,9 +6,12 @@ list of entries.  Here: a list of files, each with its directory (a civil date),
 its list of entries.  Directories exist exactly when a file lives below them (`append` is the
 only writer and creates them with `makedirs`; nothing is ever removed).
 
-Time: all datetimes are timezone-aware UTC (the code builds its cursors with `tzinfo=UTC`);
-an instant is an `Int` number of micro-seconds since 1970-01-01T00:00:00Z.  The directory of
-an entry is the date part of `str(completed)`, i.e. the civil date of the instant.
+Time: completion times are timezone-aware UTC datetimes (the pipeline stamps them with
+`datetime.now(UTC)`); an instant is an `Int` number of micro-seconds since
+1970-01-01T00:00:00Z.  The directory of an entry is the date part of `str(completed)`, i.e. the
+civil date of the instant.  Query bounds are timezone-aware datetimes written with ANY UTC
+offset (`Bound`: instant + offset); naive datetimes are outside the model (the code raises
+`TypeError` when it compares them).
 
 Core Lean only.
 -/
@@ -18,7 +21,7 @@ import DawgieVerif.Generated.ChronicleGen
 namespace DawgieVerif.Chronicle
 open DawgieVerif.Cal
 open DawgieVerif.Generated.Chronicle (requiredKeys statusWord keep floorYear floorMonth floorDay
-  oneUs onedayUs)
+  oneUs onedayUs normalisesAfter normalisesBefore)
 
 /-- one execution message.  `uid` stands for everything the history carries along without
     looking at it (changeset, version, the other timings). -/
@@ -100,22 +103,24 @@ def wants (limit : Option Int) (acc : List Entry) : Bool :=
   | none => true
   | some n => decide ((acc.length : Int) < n)
 
-/-- the `while` loop of `find`: `cursor` is the local `before`, `upper` the fixed window bound -/
-def walk (j : Journal) (after upper : Int) (limit : Option Int) (status : String)
+/-- the `while` loop of `find`: `cursor` is the local `before` as its calendar reads (wall clock of the
+    offset it carries), `lo` the day number of `after.date()`, `after`/`upper` the instants of the fixed
+    window bounds -/
+def walk (j : Journal) (after upper : Int) (lo : Int) (limit : Option Int) (status : String)
     (cursor : Int) (acc : List Entry) : List Entry :=
-  if wants limit acc ∧ dayOf after ≤ dayOf cursor then
+  if wants limit acc ∧ lo ≤ dayOf cursor then
     let c := civilFromDays (dayOf cursor)
     if hasYear j c.year then
       if hasMonth j c.year c.month then
         let acc' := if hasDay j c then acc ++ load j after upper c status else acc
-        walk j after upper limit status (cursor - onedayUs) acc'
+        walk j after upper lo limit status (cursor - onedayUs) acc'
       else
-        walk j after upper limit status
+        walk j after upper lo limit status
           (daysFromCivil c.year c.month 1 * usPerDay - oneUs) acc
     else
-      walk j after upper limit status (daysFromCivil c.year 1 1 * usPerDay - oneUs) acc
+      walk j after upper lo limit status (daysFromCivil c.year 1 1 * usPerDay - oneUs) acc
   else acc
-termination_by (dayOf cursor - dayOf after + 1).toNat
+termination_by (dayOf cursor - lo + 1).toNat
 decreasing_by
   all_goals simp_wf
   · have : dayOf (cursor - onedayUs) = dayOf cursor - 1 := by
@@ -144,17 +149,33 @@ def pyLast (l : List Entry) (n : Int) : List Entry :=
 /-- the 1980 floor -/
 def floorInstant : Int := instant floorYear floorMonth floorDay 0 0 0
 
+/-- a timezone-aware datetime: the instant it denotes and the UTC offset (minutes) it is written with -/
+structure Bound where
+  instant : Int
+  offsetMin : Int
+deriving DecidableEq, Repr
+
+/-- what `.year .month .day .date()` read: the wall clock of the carried offset -/
+def Bound.wall (b : Bound) : Int := b.instant + b.offsetMin * 60000000
+
+/-- `b.astimezone(UTC)` -/
+def Bound.toUTC (b : Bound) : Bound := ⟨b.instant, 0⟩
+
 /-- `chronicle.find(after, before, limit, succeeded)`; `now` is `datetime.now(UTC)` -/
-def find (j : Journal) (now : Int) (after before : Option Int) (limit : Option Int)
+def find (j : Journal) (now : Int) (after before : Option Bound) (limit : Option Int)
     (succeeded : Bool) : Except Err (List Entry) :=
   if after.isNone ∧ before.isNone ∧ limit.isNone then .error .valueError
   else
     let limit := if after.isSome ∧ before.isSome then none else limit
-    let after' := match after with | none => floorInstant | some a => a
-    let before' := match before with | none => now | some b => b
-    let entries := walk j after' before' limit (statusWord succeeded) before' []
+    let after0 : Bound := match after with | none => ⟨floorInstant, 0⟩ | some a => a
+    let before0 : Bound := match before with | none => ⟨now, 0⟩ | some b => b
+    let after' := if normalisesAfter then after0.toUTC else after0
+    let before' := if normalisesBefore then before0.toUTC else before0
+    let entries := walk j after'.instant before'.instant (dayOf after'.wall) limit
+      (statusWord succeeded) before'.wall []
     match limit with
     | none => .ok entries
-    | some n => if floorInstant < after' then .ok (pyLast entries n) else .ok (pyFirst entries n)
+    | some n =>
+      if floorInstant < after'.instant then .ok (pyLast entries n) else .ok (pyFirst entries n)
 
 end DawgieVerif.Chronicle
